@@ -65,6 +65,7 @@ def _row(fmt: str, k: int, model: int, chain: str, het: bool = False) -> Dict[st
 
 # (tag, [(model, chain)] per row)
 TABLES: List[Tuple[Any, ...]] = [
+    ("no atoms", []),
     ("one model, one chain", [(1, "A"), (1, "A"), (1, "A")]),
     ("one model, chains A and B", [(1, "A"), (1, "A"), (1, "B"), (1, "B")]),
     ("two models of the single chain A", [(1, "A"), (1, "A"), (2, "A"), (2, "A")]),
@@ -157,6 +158,11 @@ def run_write_pdb(call, fmt: str, rows: List[Dict[str, Any]]) -> List[str]:
     text = call(df, None)
     if not isinstance(text, str):
         raise Unknown("write_pdb(df, None) does not return text")
+    if len(rows) <= 3:
+        # the same table written into a file-like object: the same text arrives there and nothing is returned
+        sink = Buffer()
+        if call(frame_from_rows(rows, fmt), sink) is not None or sink.getvalue() != text:
+            raise Raised("AssertionError", "write_pdb(df, file) does not deliver the text it returns for write_pdb(df, None)")
     return text.split("\n")[:-1] if text.endswith("\n") else text.split("\n")
 
 
@@ -174,6 +180,10 @@ def check_write_pdb_eval(chk) -> bool:
     model_bad: List[str] = []
     perm_bad: List[Tuple[str, str]] = []
     n_tables = n_ter = n_atoms = 0
+    from sa.fragment import coverage
+
+    _cov = coverage()
+    cov = _cov.__enter__()
     try:
         for fmt in ("PDB", "mmCIF"):
             for tag, spec_rows, *perm in TABLES:
@@ -241,6 +251,8 @@ def check_write_pdb_eval(chk) -> bool:
     except Unknown as ex:
         chk.ok("write-pdb-eval", wp.where, f"write_pdb is not evaluable on representative tables ({str(ex)[:90]}): the pinned-form rules decide")
         return False
+    finally:
+        _cov.__exit__(None, None, None)
     loops = [l for l in wp.node.body if isinstance(l, ast.For)]
     site = wp.site(loops[0]) if loops else wp.where
     with evidence(chk, "record-order", "ter-line", "ter-provenance", "pdb-round-trip", "model-line"):
@@ -268,6 +280,10 @@ def check_write_pdb_eval(chk) -> bool:
             chk.ok("model-line", site, "evaluated: MODEL serial is written right-justified to columns 11-14")
         if width_bad:
             chk.violation("ter-line", site, width_bad[0], K(wp, "line-width"))
+        from checks.c08e import new_helpers, report_silent_exits
+
+        helpers = [g for g in new_helpers(repo, M)] + ([repo.func(M, "_format_pdb_atom_line")] if repo.has_func(M, "_format_pdb_atom_line") else [])
+        report_silent_exits(chk, "pdb-round-trip", [wp] + [g for g in helpers if g is not wp], cov, "tables (every (model, chain) transition, ATOM and HETATM rows, both row formats, an empty table)", {"continue": "the row is not written: an atom of the table is missing from the file", "break": "writing stops there: the rows that follow are missing from the file", "return": "the text is returned before all rows are written"})
         if perm_bad:
             where, what = perm_bad[0]
             chk.violation(
